@@ -185,7 +185,7 @@ pub fn configs(tier: Tier) -> Vec<Config> {
 pub fn run(tier: Tier, seed: u64) -> i32 {
     let stats = Stats::new(PROP, tier, seed);
     let cfgs = configs(tier);
-    let hist = [History::Plain, History::Replaced, History::ExtraRemoved, History::Reversed];
+    let hist = [History::Plain, History::Replaced, History::ExtraRemoved, History::Reversed, History::ExtraBroken];
     // packed: every configuration x 2 observed files; non-plain histories on a stride
     let stride = if tier == Tier::Quick { 5 } else { 1 };
     let n = cfgs.len() * 2 * hist.len();
@@ -219,7 +219,7 @@ pub fn run(tier: Tier, seed: u64) -> i32 {
         },
         check_case,
     );
-    stats.space(json!({"space": "packed", "configurations": cfgs.len(), "type_references_per_configuration": NAMES.len() * 5 * 4, "histories": ["Plain", "Replaced", "ExtraRemoved", "Reversed"], "non_plain_history_stride": stride}));
+    stats.space(json!({"space": "packed", "configurations": cfgs.len(), "type_references_per_configuration": NAMES.len() * 5 * 4, "histories": ["Plain", "Replaced", "ExtraRemoved", "Reversed", "ExtraBroken"], "non_plain_history_stride": stride}));
     eprintln!("  packed done t={:.1}s", stats.elapsed());
     // unpacked: one type reference per file
     let ucfg: Vec<usize> = if tier == Tier::Quick {
